@@ -43,6 +43,7 @@ type Report struct {
 	Floors     map[string]int
 	Extra      map[string]any
 	seen       map[string]int
+	only       map[string]bool // while set, only obligations and floors of these rules are recorded (a rule family run under a second property)
 }
 
 func newReport(id, tier string) *Report {
@@ -50,6 +51,9 @@ func newReport(id, tier string) *Report {
 }
 
 func (r *Report) add(o Obligation) {
+	if r.only != nil && !r.only[o.Rule] {
+		return
+	}
 	// make keys unique within a run: the n-th identical construct in a
 	// function gets a #n suffix (ordinal in source order, not a line)
 	k := o.Key()
